@@ -104,6 +104,9 @@ var jsonStrPieces = []string{"a", "{", "}", "\"", "\\", " ", "[", "]", ":", ",",
 	"\\u0008", "\\u000c", "\\u003c", "\\u0026", "\\b", "\\f", "\\n", "\b", "\f", "<", ">", "&", "\U0001F600", "\u2028", "\\u2028", "\\ud83d", "\x7f", "%", "%d", "%%", "%v", "100%", "/", "http://x/", "</script>"}
 
 func genJSONString(t *rapid.T) string {
+	if rapid.IntRange(0, 9).Draw(t, "jslook") == 4 {
+		return rapid.SampledFrom(lookalikes).Draw(t, "jsla") // whole values that look like something else (Infinity, <nil>, 1.0 ...)
+	}
 	n := rapid.IntRange(0, 5).Draw(t, "jsn")
 	var sb strings.Builder
 	for i := 0; i < n; i++ {
